@@ -27,16 +27,16 @@ const Module = "github.com/uber-go/gopatch"
 // Prog is the loaded, type-checked and SSA-built program.
 type Prog struct {
 	roleCache map[string]*ssa.Function
-	Dir   string
-	Fset  *token.FileSet
-	Pkgs  []*packages.Package          // module packages, sorted by path
-	ByP   map[string]*packages.Package // import path -> package (module and deps)
-	SSA   *ssa.Program
-	SPkg  map[string]*ssa.Package // import path -> ssa package (module and deps)
-	cgVTA *callgraph.Graph
-	cgCHA *callgraph.Graph
-	pdom  map[*ssa.Function]*PostDom
-	cdep  map[*ssa.Function]CtrlDeps
+	Dir       string
+	Fset      *token.FileSet
+	Pkgs      []*packages.Package          // module packages, sorted by path
+	ByP       map[string]*packages.Package // import path -> package (module and deps)
+	SSA       *ssa.Program
+	SPkg      map[string]*ssa.Package // import path -> ssa package (module and deps)
+	cgVTA     *callgraph.Graph
+	cgCHA     *callgraph.Graph
+	pdom      map[*ssa.Function]*PostDom
+	cdep      map[*ssa.Function]CtrlDeps
 
 	// statistics for evidence
 	NFuncs int
